@@ -1,3 +1,5 @@
 import PfVerif.Audit.Tool
 import PfVerif.Props.C10
+import PfVerif.Lemmas.C10QE
 #audit_module PfVerif.Props.C10
+#audit_module_ns PfVerif.Lemmas.C10QE PfVerif.C10QE
